@@ -343,7 +343,7 @@ theorem sameC_detect (s : St) (c : Cfg) (call : Call) (err : ErrKind) : SameC s 
         split
         · exact SameC.refl s
         · split
-          · exact (sameC_modRef s call.slot (fun r => { r with deCalls := r.deCalls + 1 }) (fun _ => rfl)).trans (sameC_refresh _ _)
+          · exact (sameC_modRef s call.slot (fun r => { r with deCalls := satInc r.deCalls }) (fun _ => rfl)).trans (sameC_refresh _ _)
           · exact sameC_modRef _ _ _ (fun _ => rfl)
 
 theorem sameC_opDone (s : St) (callId : Nat) (err : ErrKind) (reply : Msg) : SameC s (opDone s callId err reply).1 := by
